@@ -544,18 +544,24 @@ func (s *connectableObservableImpl[T]) Connect() Subscription {
 func (s *connectableObservableImpl[T]) ConnectWithContext(ctx context.Context) Subscription {
 	s.mu.Lock()
 	if s.subscription == nil || s.subscription.IsClosed() {
-		s.subscription = s.source.SubscribeWithContext(ctx, s.subject)
+		subscription := s.source.SubscribeWithContext(ctx, s.subject)
+		s.subscription = subscription
 		s.mu.Unlock()
-		s.subscription.Add(func() {
+		subscription.Add(func() {
 			if s.config.ResetOnDisconnect {
+				s.mu.Lock()
 				s.subject = s.config.Connector()
+				s.mu.Unlock()
 			}
 		})
-	} else {
-		s.mu.Unlock()
+
+		return subscription
 	}
 
-	return s.subscription
+	subscription := s.subscription
+	s.mu.Unlock()
+
+	return subscription
 }
 
 func (s *connectableObservableImpl[T]) Subscribe(observer Observer[T]) Subscription {
@@ -563,5 +569,9 @@ func (s *connectableObservableImpl[T]) Subscribe(observer Observer[T]) Subscript
 }
 
 func (s *connectableObservableImpl[T]) SubscribeWithContext(ctx context.Context, observer Observer[T]) Subscription {
-	return s.subject.SubscribeWithContext(ctx, observer)
+	s.mu.Lock()
+	subject := s.subject
+	s.mu.Unlock()
+
+	return subject.SubscribeWithContext(ctx, observer)
 }
